@@ -2,6 +2,7 @@ package props
 
 import (
 	"bytes"
+	"compress/gzip"
 	"fmt"
 	"io"
 	"sort"
@@ -371,9 +372,10 @@ func genCorruptArchive(t *rapid.T) BytesCase {
 		// the hostile part sits one level down: the control member is a tar whose './control' entry
 		// is a sparse file (old GNU 'S' header: a few bytes stored, a huge logical size the tar reader
 		// fills with NULs it makes up), a directory, a symlink, or declares more data than there is
-		kind := rapid.SampledFrom([]string{"sparse-2^20", "sparse-2^40", "sparse-2^62", "dir", "symlink", "short", "pax-sparse-control", "pax-sparse-other-before", "pax-sparse-other-after", "size-claim-2^62", "size-claim-2^55", "size-claim-other-2^62"}).Draw(t, "tarkind")
+		kind := rapid.SampledFrom([]string{"sparse-2^20", "sparse-2^40", "sparse-2^62", "dir", "symlink", "short", "pax-sparse-control", "pax-sparse-other-before", "pax-sparse-other-after", "size-claim-2^62", "size-claim-2^55", "size-claim-other-2^62", "many-continuation-lines"}).Draw(t, "tarkind")
 		note = "tarlevel:" + kind
 		var ctl []byte
+		gzControl := false
 		switch kind {
 		case "dir", "symlink":
 			tf := TarFile{Name: "./control", Type: kind, Link: "/etc/passwd"}
@@ -421,6 +423,19 @@ func genCorruptArchive(t *rapid.T) BytesCase {
 				ctl = append(claim("./md5sums", 1<<62), rawTarEntry("./control", '0', text)...)
 			}
 			ctl = append(ctl, make([]byte, 1024)...)
+		case "many-continuation-lines":
+			// a few KiB of gzip that unfold into a control file of one field with half a million
+			// continuation lines: work that grows with the square of that number does not finish
+			n := rapid.IntRange(500000, 800000).Draw(t, "contLines")
+			line := rapid.SampledFrom([]string{" x\n", " .\n", "\ty\n"}).Draw(t, "contLine")
+			text := "Package: x\nVersion: 1\nArchitecture: all\nMaintainer: A <a@b.c>\nDescription: d\n" + strings.Repeat(line, n)
+			tarball, _ := buildTar([]TarFile{{Name: "./control", Type: "reg", Content: []byte(text)}})
+			var gz bytes.Buffer
+			zw := gzip.NewWriter(&gz)
+			zw.Write(tarball)
+			zw.Close()
+			ctl = gz.Bytes()
+			gzControl = true
 		case "short":
 			ctl, _ = buildTar([]TarFile{{Name: "./control", Type: "reg", Content: []byte("Package: x\nVersion: 1\nArchitecture: all\nMaintainer: A <a@b.c>\nDescription: d\n")}})
 			if len(ctl) > 600 {
@@ -429,13 +444,17 @@ func genCorruptArchive(t *rapid.T) BytesCase {
 		default:
 			ctl = sparseControlTar(map[string]int64{"sparse-2^20": 1 << 20, "sparse-2^40": 1 << 40, "sparse-2^62": 1 << 62}[kind])
 		}
+		ctlName := "control.tar"
+		if gzControl {
+			ctlName = "control.tar.gz"
+		}
 		for i := range ms {
 			if strings.HasPrefix(ms[i].Name, "control.") {
-				ms[i].Name, ms[i].Data = "control.tar", ctl
+				ms[i].Name, ms[i].Data = ctlName, ctl
 			}
 		}
 		if !isDeb {
-			ms = append(ms, ArMember{Name: "control.tar", Mode: "100644", Data: ctl})
+			ms = append(ms, ArMember{Name: ctlName, Mode: "100644", Data: ctl})
 		}
 	}
 	raw := renderAr(ms)
@@ -511,7 +530,7 @@ func genCorruptArchive(t *rapid.T) BytesCase {
 
 var specC15Corrupt = Register(&Spec[BytesCase]{
 	Prop: "C15", Name: "corrupt",
-	Rule:  "structured corruption of valid artefacts (C13 archives and C14 packages with stored/gzip members): one header column (name, mtime, uid, gid, mode, size, magic) of one member overwritten with negative, '+'-signed, huge, blank, non-numeric, NUL, hex or overflowing text; 2..4 numeric columns of one header made non-numeric at once; a member renamed '//' and later ones '/<offset>' (GNU long-name table and references); the control member replaced by a stored tar whose './control' entry is a GNU sparse file of 2^20 / 2^40 / 2^62 made-up bytes, a directory, a symlink, or cut short, or which carries - as ./control or next to it - a PAX-style sparse entry of 2^40 made-up bytes, or a regular entry (./control or the file in front of it) whose base-256 size field claims 2^55 or 2^62 bytes; one or both header magic bytes changed; truncation at a generated offset; a member duplicated (same or changed content), members reordered, a decoy control.*/data.* member with another extension (optionally a tar with 'Package: evil') inserted; a padding byte added or removed; a global magic byte flipped. Oracle: no panic; the Next() loop ends in io.EOF or an error within len/60+2 steps; every returned member sits behind a header ending 0x60 0x0A, has Size >= 0 and a reader delivering exactly Size bytes; deb.Load stays within a read budget and returns within 20 s; seven iterations / loads of the same bytes, and one through an io.SectionReader window of a larger buffer with a valid archive behind it, give the same outcome (the same error text, or the same extensions, control identity and member index). Non-trivial: >= 1 member returned or a first header parsed; distinct by bytes.",
+	Rule:  "structured corruption of valid artefacts (C13 archives and C14 packages with stored/gzip members): one header column (name, mtime, uid, gid, mode, size, magic) of one member overwritten with negative, '+'-signed, huge, blank, non-numeric, NUL, hex or overflowing text; 2..4 numeric columns of one header made non-numeric at once; a member renamed '//' and later ones '/<offset>' (GNU long-name table and references); the control member replaced by a stored tar whose './control' entry is a GNU sparse file of 2^20 / 2^40 / 2^62 made-up bytes, a directory, a symlink, or cut short, or which carries - as ./control or next to it - a PAX-style sparse entry of 2^40 made-up bytes, or a regular entry (./control or the file in front of it) whose base-256 size field claims 2^55 or 2^62 bytes, or replaced by a few KiB of gzip whose './control' is one field with 500 000 to 800 000 continuation lines (it has to be read in a time that does not grow with the square of that); one or both header magic bytes changed; truncation at a generated offset; a member duplicated (same or changed content), members reordered, a decoy control.*/data.* member with another extension (optionally a tar with 'Package: evil') inserted; a padding byte added or removed; a global magic byte flipped. Oracle: no panic; the Next() loop ends in io.EOF or an error within len/60+2 steps; every returned member sits behind a header ending 0x60 0x0A, has Size >= 0 and a reader delivering exactly Size bytes; deb.Load stays within a read budget and returns within 20 s; seven iterations / loads of the same bytes, and one through an io.SectionReader window of a larger buffer with a valid archive behind it, give the same outcome (the same error text, or the same extensions, control identity and member index). Non-trivial: >= 1 member returned or a first header parsed; distinct by bytes.",
 	Check: checkBytesCase,
 })
 
